@@ -39,8 +39,11 @@ def main():
         if r1 is not None:
             print("   ", (r1.stdout + r1.stderr).strip().splitlines()[-1:] )
         if "--tests" in flags:
-            t = subprocess.run(["/venv/bin/python", "-m", "pytest", "-q", "-p", "no:cacheprovider", "-n", "6", "dask_array/tests"], cwd=repo, env=env, capture_output=True, text=True, timeout=3600)
+            t = subprocess.run(["/venv/bin/python", "-m", "pytest", "-q", "-ra", "-p", "no:cacheprovider", "-n", "6", "dask_array/tests"], cwd=repo, env=env, capture_output=True, text=True, timeout=3600)
             print("tests:", t.stdout.strip().splitlines()[-1] if t.stdout.strip() else t.stderr[-200:])
+            for l in t.stdout.splitlines():
+                if l.startswith("FAILED"):
+                    print("   ", l[:160])
         tier = "thorough" if "--thorough" in flags else "quick"
         for c in checks:
             e = dict(os.environ, VERIF_REPO=str(repo))
